@@ -73,3 +73,21 @@ Properties/C07.vos Properties/C07.vok Properties/C07.required_vos: Properties/C0
 Properties/C08.vo Properties/C08.glob Properties/C08.v.beautified Properties/C08.required_vo: Properties/C08.v Base.vo Prim.vo
 Properties/C08.vio: Properties/C08.v Base.vio Prim.vio
 Properties/C08.vos Properties/C08.vok Properties/C08.required_vos: Properties/C08.v Base.vos Prim.vos
+Model/Random.vo Model/Random.glob Model/Random.v.beautified Model/Random.required_vo: Model/Random.v Base.vo Prim.vo Model/Digit.vo Model/Core.vo Model/Shift.vo Model/AddSub.vo Model/Mul.vo Model/Div.vo Model/Bits.vo
+Model/Random.vio: Model/Random.v Base.vio Prim.vio Model/Digit.vio Model/Core.vio Model/Shift.vio Model/AddSub.vio Model/Mul.vio Model/Div.vio Model/Bits.vio
+Model/Random.vos Model/Random.vok Model/Random.required_vos: Model/Random.v Base.vos Prim.vos Model/Digit.vos Model/Core.vos Model/Shift.vos Model/AddSub.vos Model/Mul.vos Model/Div.vos Model/Bits.vos
+Run/RunC20.vo Run/RunC20.glob Run/RunC20.v.beautified Run/RunC20.required_vo: Run/RunC20.v Base.vo Prim.vo Model/Core.vo Model/Shift.vo Model/AddSub.vo Model/Mul.vo Model/Div.vo Model/Bits.vo Model/Random.vo Run/RunBase.vo
+Run/RunC20.vio: Run/RunC20.v Base.vio Prim.vio Model/Core.vio Model/Shift.vio Model/AddSub.vio Model/Mul.vio Model/Div.vio Model/Bits.vio Model/Random.vio Run/RunBase.vio
+Run/RunC20.vos Run/RunC20.vok Run/RunC20.required_vos: Run/RunC20.v Base.vos Prim.vos Model/Core.vos Model/Shift.vos Model/AddSub.vos Model/Mul.vos Model/Div.vos Model/Bits.vos Model/Random.vos Run/RunBase.vos
+Properties/C20.vo Properties/C20.glob Properties/C20.v.beautified Properties/C20.required_vo: Properties/C20.v Base.vo Prim.vo Model/Digit.vo Model/Core.vo Model/Shift.vo Model/AddSub.vo Model/Mul.vo Model/Div.vo Model/Bits.vo Model/Random.vo Proofs/RandomZ.vo Proofs/RandomDeps.vo Proofs/Random.vo
+Properties/C20.vio: Properties/C20.v Base.vio Prim.vio Model/Digit.vio Model/Core.vio Model/Shift.vio Model/AddSub.vio Model/Mul.vio Model/Div.vio Model/Bits.vio Model/Random.vio Proofs/RandomZ.vio Proofs/RandomDeps.vio Proofs/Random.vio
+Properties/C20.vos Properties/C20.vok Properties/C20.required_vos: Properties/C20.v Base.vos Prim.vos Model/Digit.vos Model/Core.vos Model/Shift.vos Model/AddSub.vos Model/Mul.vos Model/Div.vos Model/Bits.vos Model/Random.vos Proofs/RandomZ.vos Proofs/RandomDeps.vos Proofs/Random.vos
+Proofs/RandomZ.vo Proofs/RandomZ.glob Proofs/RandomZ.v.beautified Proofs/RandomZ.required_vo: Proofs/RandomZ.v Base.vo
+Proofs/RandomZ.vio: Proofs/RandomZ.v Base.vio
+Proofs/RandomZ.vos Proofs/RandomZ.vok Proofs/RandomZ.required_vos: Proofs/RandomZ.v Base.vos
+Proofs/RandomDeps.vo Proofs/RandomDeps.glob Proofs/RandomDeps.v.beautified Proofs/RandomDeps.required_vo: Proofs/RandomDeps.v Base.vo Prim.vo Model/Digit.vo Model/Core.vo Model/Shift.vo Model/AddSub.vo Model/Mul.vo Model/Div.vo Model/Bits.vo
+Proofs/RandomDeps.vio: Proofs/RandomDeps.v Base.vio Prim.vio Model/Digit.vio Model/Core.vio Model/Shift.vio Model/AddSub.vio Model/Mul.vio Model/Div.vio Model/Bits.vio
+Proofs/RandomDeps.vos Proofs/RandomDeps.vok Proofs/RandomDeps.required_vos: Proofs/RandomDeps.v Base.vos Prim.vos Model/Digit.vos Model/Core.vos Model/Shift.vos Model/AddSub.vos Model/Mul.vos Model/Div.vos Model/Bits.vos
+Proofs/Random.vo Proofs/Random.glob Proofs/Random.v.beautified Proofs/Random.required_vo: Proofs/Random.v Base.vo Prim.vo Model/Digit.vo Model/Core.vo Model/Shift.vo Model/AddSub.vo Model/Mul.vo Model/Div.vo Model/Bits.vo Model/Random.vo Proofs/RandomZ.vo Proofs/RandomDeps.vo
+Proofs/Random.vio: Proofs/Random.v Base.vio Prim.vio Model/Digit.vio Model/Core.vio Model/Shift.vio Model/AddSub.vio Model/Mul.vio Model/Div.vio Model/Bits.vio Model/Random.vio Proofs/RandomZ.vio Proofs/RandomDeps.vio
+Proofs/Random.vos Proofs/Random.vok Proofs/Random.required_vos: Proofs/Random.v Base.vos Prim.vos Model/Digit.vos Model/Core.vos Model/Shift.vos Model/AddSub.vos Model/Mul.vos Model/Div.vos Model/Bits.vos Model/Random.vos Proofs/RandomZ.vos Proofs/RandomDeps.vos
